@@ -84,7 +84,7 @@ CLAIMS["C08"] = dict(
     category="proof",
     text="get_hash is proved to read only the incremental hash field, the en-passant file, both castle rights and the side to move; the incremental field is proved to stay the XOR of the keys of the placement under every operation that changes the board: Board::xor (exactly one key toggled), make_move_new / make_move (coordinate-wise hash contract for every key, every placement, every rule-obeying move), null_move (field unchanged); Hash for Board feeds exactly that field, so it is consistent with ==. Hence equal positions hash equally however they were reached.",
     design_ref="DESIGN.md §6 C08",
-    note=TRUST + "the lift from per-operation contracts to 'all pairs of histories' is the standard induction over the history (each step preserves hash == XOR of keys of the placement), stated here and not mechanised; TryFrom<&BoardBuilder> builds the field by xor calls from 0 (C07 obligations).",
+    note=TRUST + "the lift from per-operation contracts to 'all pairs of histories' is the standard induction over the history (each step preserves hash == XOR of keys of the placement), stated here and not mechanised; TryFrom<&BoardBuilder> builds the field by xor calls from 0: its coordinate-wise hash clause (the probed key is in the field exactly when that man is on the built board) is part of O7.1e (bounded quick variant, symbolic ranks 1,4,5,8, run here; all 64 squares in O7.1, thorough).",
     technique="Kani/CBMC relational frame contract on get_hash, coordinate-wise hash contracts on make_move*/xor via a probe stand-in for the key table, recording-Hasher contract for Hash",
 )
 CLAIMS["C09"] = dict(
